@@ -177,7 +177,7 @@ def rule_e9_par(ctx):
                    "expressions extracted symbolically from the constructors and each drive_unindexed, evaluated for all pairs of subsets of a 4-element universe")
     sem, _ = stream_semantics(ctx)
     ev = ParEval(ctx, sem)
-    subs = subsets(U)
+    subs = subsets(U if ctx.tier != "thorough" else U + (4,))
     n = 0
     for b in ctx.facts.bodies.values():
         if b.kind == "Closure":
@@ -230,8 +230,8 @@ def rule_e9_par(ctx):
             if bad:
                 R.viol(api, b.where(Loc(0, 0)), "%s: %s" % (b.path, bad))
     # map par_eq
-    keys = (0, 1, 2)
-    maps = [{k: v for k, v in zip(keys, pres) if v is not None} for pres in itertools.product([None, 0, 1], repeat=3)]
+    keys = (0, 1, 2) if ctx.tier != "thorough" else (0, 1, 2, 3)
+    maps = [{k: v for k, v in zip(keys, pres) if v is not None} for pres in itertools.product([None, 0, 1], repeat=len(keys))]
     for b in ctx.facts.bodies.values():
         if b.kind != "Closure" and api_of(b.path) == "HashMap::par_eq":
             n += 1
